@@ -26,6 +26,7 @@ DIALECTS = [("standard", AstToSqlVisitor), ("sqlite", AstToSqliteSqlVisitor), ("
 POSITIONS: List[dict] = []
 NORM: Dict[str, bool] = {}     # known-finding regions that are active in this run
 KID_ESCAPE = "like-escape-clause-depends-on-content"
+KID_TWICE = "athena-hassubset-operand-twice"
 
 S = ("Str", ("$", 0))
 F = ("Id", "f", ())
@@ -156,7 +157,8 @@ def scan_var(base_sql: str, var_sql: str, hole: int) -> list:
     return sqllex.scan(var_sql)
 
 
-def compare(base_sql: str, var_sql: str, s: str, kind: str, fn: Optional[str], strict: bool, hole: int = -1) -> bool:
+def compare(base_sql: str, var_sql: str, s: str, kind: str, fn: Optional[str], strict: bool, hole: int = -1,
+            twice: bool = False) -> bool:
     tb_raw, tv_raw = _scan_base(base_sql), scan_var(base_sql, var_sql, hole)
     tb, tv = (tb_raw, tv_raw) if strict else (strip_like_escape(tb_raw), strip_like_escape(tv_raw))
     if sqllex.skeleton(tb) != sqllex.skeleton(tv):
@@ -167,6 +169,9 @@ def compare(base_sql: str, var_sql: str, s: str, kind: str, fn: Optional[str], s
     changed = [j for j in range(len(tv)) if tv[j] != tb[j]]
     if s == "":
         return len(changed) == 0
+    if twice and kind == "plain" and len(changed) == 2:
+        # known finding: the template repeats the operand (Athena hassubset) - each copy must be its own literal of s
+        return all(tv[j][0] == "str" and tv[j][1] == s for j in changed)
     if len(changed) != 1 or tv[changed[0]][0] != "str":
         return False
     got = tv[changed[0]][1]
@@ -212,8 +217,9 @@ def check_literal(i: int, d: int, alias: bool, s: str) -> bool:
         return base is None
     if base is None or not isinstance(base, str) or not isinstance(var, str):
         return base is None and not isinstance(var, str)
+    twice = bool(NORM.get(KID_TWICE)) and DIALECTS[d][0] == "athena" and p["desc"].startswith("hassubset(.. S at 1")
     return compare(base, var, s, p["kind"], p["fn"], strict=not NORM.get(KID_ESCAPE, False),
-                   hole=HOLE_TOKEN.get((i, d, alias), -1))
+                   hole=HOLE_TOKEN.get((i, d, alias), -1), twice=twice)
 
 
 def check_field(d: int, alias: bool, shape_i: int, name: str) -> bool:
@@ -262,6 +268,19 @@ def ref_clean_athena(name: str) -> str:
 def _replay_known(run: Run) -> None:
     """honour a listed finding only if its witness still fails under the strict comparison."""
     for k in run.known:
+        if k.get("id") == KID_TWICE:
+            pos = [i for i, p in enumerate(POSITIONS) if p["desc"].startswith("hassubset(.. S at 1")]
+            if pos:
+                vis = _visitor(2, False)
+                base = vis.visit(gen.build(POSITIONS[pos[0]]["shape"], ("",)))
+                var = _visitor(2, False).visit(gen.build(POSITIONS[pos[0]]["shape"], ("q",)))
+                if not compare(base, var, "q", "plain", None, strict=True) and compare(base, var, "q", "plain", None, strict=True, twice=True):
+                    NORM[KID_TWICE] = True
+                    run.known_finding(k, f"hassubset(f, 'q') -> {var!r}: the literal occupies two string tokens", name="known:" + KID_TWICE,
+                                      family="literal")
+                else:
+                    run.notes.append(f"known finding {KID_TWICE} no longer reproduces: region not excluded")
+            continue
         if k.get("id") != KID_ESCAPE:
             continue
         w = k.get("witness", {})
